@@ -78,7 +78,10 @@ func genOp(t *rapid.T, ops []string, maxP int) arith.Case {
 	if gen.Pick(t, 12, "sp2") == 0 {
 		c.X = gen.Special(t, "sx2")
 	}
-	if arith.Binary(c.Op) && gen.Pick(t, 10, "spy") == 0 {
+	if arith.Binary(c.Op) && c.X.Form >= 2 && gen.Pick(t, 2, "bothnan") == 0 {
+		// two NaNs of the same class with different signs: which one propagates is observable
+		c.Y = core.Dec{Form: c.X.Form, Neg: !c.X.Neg, Coeff: "0"}
+	} else if arith.Binary(c.Op) && gen.Pick(t, 10, "spy") == 0 {
 		c.Y = gen.Any(t, c.Ctx, "sy")
 		if gen.Pick(t, 3, "zy") == 0 {
 			c.Y = gen.Zero(t, c.Ctx, "zy")
